@@ -356,7 +356,10 @@ PROPS["C17"] = {
             "then constraints through field accesses on single- and multi-valued variables and object (dis)equalities. The declarations are read first; oracle right after that read(): "
             "the domain of every declared variable (ov value) is exactly the set of instances of its type and subtypes created before the declaration (enum: own + included values). "
             "The constraints are read by a second read(); after solve(): every variable's value is in that set, every instance field equals the constructor / initialiser value, every "
-            "constraint over objects holds for every remaining choice. Non-trivial: field access on a multi-valued variable, a diamond, an enum union, or a variable declared between "
+            "constraint over objects holds for every remaining choice. Layer L1b (half of the shards): a class T0 with a real, an int, a bool and a time-point field (half of the time declared as a type nested in "
+            "another class and named N.T0 everywhere), a class T1 with a field of type T0 and a real field, 2-4 instances each with constant field values, object variables over them; 1-5 "
+            "constraints through v.r / v.k / v.p / v.t / w.s / w.link / w.link.r (chains) / w.link == v / w.s + v.r, each true under a planted choice; the harness evaluates every "
+            "constraint for every combination of values the reported solution still allows (counter field_constraints_evaluated). Non-trivial: field access on a multi-valued variable, a diamond, an enum union, or a variable declared between "
             "instantiations. Distinct by program text.",
     "technique": "property-based testing with a class-hierarchy generator and a reference object model",
     "level_text": "Random hierarchies and instance sets compared with a reference model of domains and constructor semantics. Methods and nested types are not generated.",
